@@ -10,11 +10,16 @@ def run(tier):
     pr = PropertyRun('C15', tier)
     extra = [c for c in CMPLIB if c.script_name in ('arrayIndexOf', 'arrayLastIndexOf', 'arraySort', 'objectNew')]
     run_contracts(pr, ARRAY_OBJECT + STRING + extra, tier)
+    # the match-function form of arrayIndexOf/arrayLastIndexOf (a second contract on the same functions, under the
+    # complementary precondition)
+    from contracts.lib_cmp import INDEX_OF_MATCH
+    run_contracts(pr, INDEX_OF_MATCH, tier)
     pr.assumptions += [
         'str.find/rfind/lower/upper/strip/replace/split, re.escape and urllib.parse.quote are uninterpreted functions shared by code model and specification: the proof covers argument validation, int() conversion, bounds and failure values, not those built-ins',
         'regexEscape(s) matches exactly s and URL encoding is reversible: assumed contracts of re.escape / urllib.parse.quote',
         'the argument list passed to a library function is a fresh temporary not reachable from any script value (true of the call site in evaluate_expression)',
-        'arrayIndexOf/arrayLastIndexOf are covered for a value argument (not a match function), arraySort for the default order (assumed list.sort contract: an in-place permutation); arrayJoin and stringFromCharCode are not under contract',
+        'arrayIndexOf/arrayLastIndexOf: the value form and the match-function form are two contracts under complementary preconditions; in the match-function form the callback is an arbitrary host function (may change any script-reachable container, may raise), its verdict per visited element is a ghost, and a failure after the first callback is attributed to the callbacks (they may shrink the array under the scan)',
+        'arraySort is covered for the default order (assumed list.sort contract: an in-place permutation); arrayJoin and stringFromCharCode are not under contract',
         'each contract quantifies over an arbitrary pre-heap with arbitrary aliasing, so any history of calls is covered by sequential composition',
     ]
     return pr
